@@ -472,6 +472,9 @@ type edRun struct {
 	// carried comments, with the block's comment text (structural cause of finding G2).
 	Collapsed map[*modfile.Line]string
 	StartPtr  map[*modfile.Line]bool
+	// BlankOnly: lines of the starting file whose only "comment" was a blank-line placeholder (the strict
+	// parser then does not let them inherit the block's comments; structural cause of finding G4).
+	BlankOnly map[*modfile.Line]bool
 }
 
 // edDirectiveText is the text of whole-line and end-of-line comments (blank placeholders skipped).
@@ -523,6 +526,7 @@ type edLineRec struct {
 	Tokens []string // full tokens (block verb included)
 	Before []string // non-blank, trimmed
 	Suffix []string
+	Blanks int // blank-line placeholders among the Before comments
 }
 
 func edComTexts(cs []modfile.Comment) []string {
@@ -544,7 +548,9 @@ func edTreeLines(fs *modfile.FileSyntax) []edLineRec {
 			return
 		}
 		toks := append(append([]string{}, verb...), l.Token...)
-		out = append(out, edLineRec{Ptr: l, Tokens: toks, Before: edComTexts(l.Before), Suffix: edComTexts(l.Suffix)})
+		rec := edLineRec{Ptr: l, Tokens: toks, Before: edComTexts(l.Before), Suffix: edComTexts(l.Suffix)}
+		rec.Blanks = len(l.Before) - len(rec.Before)
+		out = append(out, rec)
 	}
 	for _, st := range fs.Stmt {
 		switch st := st.(type) {
@@ -562,7 +568,7 @@ func edTreeLines(fs *modfile.FileSyntax) []edLineRec {
 // edRunSession parses the file strictly, applies ops (a final Cleanup is always applied),
 // formats and re-parses strictly.  stopBefore < 0: run everything.
 func edRunSession(work bool, file string, ops []edOp) (run *edRun) {
-	run = &edRun{Collapsed: map[*modfile.Line]string{}, StartPtr: map[*modfile.Line]bool{}}
+	run = &edRun{Collapsed: map[*modfile.Line]string{}, StartPtr: map[*modfile.Line]bool{}, BlankOnly: map[*modfile.Line]bool{}}
 	var fs *modfile.FileSyntax
 	if work {
 		f, err := modfile.ParseWork("go.work", []byte(file), nil)
@@ -586,6 +592,9 @@ func edRunSession(work bool, file string, ops []edOp) (run *edRun) {
 	for i, l := range run.Lines {
 		ids[l.Ptr] = i
 		run.StartPtr[l.Ptr] = true
+		if l.Blanks > 0 && len(l.Before) == 0 && len(l.Suffix) == 0 {
+			run.BlankOnly[l.Ptr] = true
+		}
 	}
 	if work {
 		run.Start = edDirsOfWork(run.Work, ids)
